@@ -31,6 +31,7 @@ import Driver.Keys
 import Driver.C18R
 import Driver.CK
 import Driver.C14Tok
+import Driver.E2E
 /-!
 Line-protocol driver `jsight-model` (DESIGN.md §12). One request per line on stdin, one reply per
 line on stdout. Core Lean only: nothing imported here may import Mathlib (the executable would
@@ -245,6 +246,8 @@ def handle (line : String) : String :=
   | "ex" :: _ => DEx.handle line
   | "extext" :: r => DExText.handle (r.headD "")
   | "exk" :: _ => DExK.handle line
+  | "e2e" :: r => DE2E.handle false r
+  | "e2eo" :: r => DE2E.handle true r
   | "tg" :: _ => DTG.handle line
   | "lk" :: _ => DLK.handle line
   | "ck" :: _ => DCK.handle (restOf line)
